@@ -95,6 +95,13 @@ def draw_cfg(st, prop="C03"):
         cfg["exc"] = {"AppError": ["AppError", "AppSubError", "MixedErr"], "ValueError": ["ValueError", "MixedErr2"],
                       "KeyError": ["KeyError", "MixedErr"], "ExtractMe": ["ExtractMe", "ExtractSub"]}[hot]
         ex = [[hot, "raise" if st.choose(3, "hot-mode") else "fields"]]
+        if st.choose(2, "hot-pair"):
+            # ... and a second family whose extractor works, failing in other threads at the same time: what
+            # goes wrong for one exception must not leak into the handling of another
+            other = [h for h in ("AppError", "ValueError", "KeyError", "ExtractMe") if h != hot][st.choose(3, "hot2")]
+            cfg["exc"] = cfg["exc"] + {"AppError": ["AppError", "AppSubError"], "ValueError": ["ValueError"],
+                                       "KeyError": ["KeyError"], "ExtractMe": ["ExtractMe", "ExtractSub"]}[other]
+            ex = [[hot, "raise"], [other, "fields"]]
     if st.choose(2, "collide"):
         # an extractor whose result collides with the fields eliot itself puts on a failed end message
         ex.append(["CollideErr", "collide"])
